@@ -2,6 +2,7 @@ import CssVerif.Lemmas.SelFinish
 import CssVerif.Lemmas.SelPrep
 import CssVerif.Lemmas.SelUsed
 import CssVerif.Lemmas.SelList
+import CssVerif.Lemmas.SelAcc
 /-!
 # C16 — selector specificity, structure and list semantics
 
@@ -15,6 +16,47 @@ skeleton `Sel.skel`, which forgets names, white space, comments and letter case)
 -/
 namespace CssVerif.C16
 open CssVerif.Sel CssVerif.Proto CssVerif.Gen.C16
+
+/-! ## T16.1 — accounting, for every state and every token (no assumption on the token list) -/
+
+/-- **T16.1 (one token).** Whatever the state and the token: either the counters `b, c, d` are unchanged, or the
+token appended exactly one item `it` to `seq` and the counters grew by exactly
+`(incB ctx it, incC ctx it, incD ctx it)`, where `ctx` is the context the item was appended in (the top of the
+context stack before the token, or — for `:not(`, which pushes first — after it). By `inc_meaning` these
+increments are: an `id` item → `b`; a `class` item or the `[` of an attribute → `c`; a `type-selector`,
+`negation-type-selector` or `pseudo-element` item → `d`; each only while the context is the root or a negation,
+never inside `[ ]` or the `( )` of a functional pseudo. Nothing else ever changes the specificity. -/
+theorem accounting_step (ns : NsMap) (st st' : St) (t : Tok) (h : step ns st t = .ok st') :
+    (st'.b = st.b ∧ st'.c = st.c ∧ st'.d = st.d) ∨
+    (∃ ctx it, (st.ctx.head? = some ctx ∨ st'.ctx.head? = some ctx) ∧ st'.rseq = it :: st.rseq ∧
+       st'.b = st.b + incB ctx it.typ ∧ st'.c = st.c + incC ctx it.typ it.val ∧
+       st'.d = st.d + incD ctx it.typ it.val) := step_RS ns st st' t h
+
+/-- what the increments are (they are 0 or 1, and at most one of them is 1) -/
+theorem inc_meaning (ctx typ : Cps) (v : Val) :
+    (incB ctx typ = 1 ↔ (ctx = [] ∨ ctx = cxNegation) ∧ typ = tyId) ∧
+    (incC ctx typ v = 1 ↔ (ctx = [] ∨ ctx = cxNegation) ∧ typ ≠ tyId ∧ (typ = tyClass ∨ v = .str [91])) ∧
+    (incD ctx typ v = 1 ↔ (ctx = [] ∨ ctx = cxNegation) ∧ typ ≠ tyId ∧ ¬ (typ = tyClass ∨ v = .str [91]) ∧
+        elemOf typ dTypes = true) ∧
+    incB ctx typ + incC ctx typ v + incD ctx typ v ≤ 1 := by
+  have hv : v.isStr [91] = decide (v = .str [91]) := by
+    cases v with
+    | str s =>
+      simp only [Val.isStr, Val.str.injEq]
+      by_cases h : s = [91] <;> simp [h]
+    | comment s => simp [Val.isStr]
+    | ns u n => simp [Val.isStr]
+  refine ⟨?_, ?_, ?_, inc_sum_le_one ctx typ v⟩ <;>
+    (simp only [incB, incC, incD, countsIn, hv]
+     by_cases h1 : ctx = [] <;> by_cases h2 : ctx = cxNegation <;> by_cases h3 : typ = tyId <;>
+       by_cases h4 : typ = tyClass <;> by_cases h5 : v = .str [91] <;> cases h6 : elemOf typ dTypes <;>
+       simp [h1, h2, h3, h4, h5])
+
+/-- **T16.1 (a whole token list).** Along any run the counters never decrease, and they grow by at most one unit
+per (regrouped) token: nothing is counted twice. -/
+theorem accounting_run (ns : NsMap) (toks : List Tok) (st st' : St) (h : run ns st toks = .ok st') :
+    st.b ≤ st'.b ∧ st.c ≤ st'.c ∧ st.d ≤ st'.d ∧ st'.b + st'.c + st'.d ≤ st.b + st.c + st.d + toks.length :=
+  run_counts ns toks st st' h
 
 /-! ## T16.2 — specificity and structure of every written selector, in every spelling -/
 
